@@ -24,6 +24,7 @@
   of the entries that remain are distinct.
 -/
 import Gedcom.Model.Living
+import Gedcom.Model.PublishNames
 namespace Gedcom.Pages
 open Gedcom Gedcom.Living
 
@@ -158,14 +159,14 @@ def strLt : Str → Str → Bool
 
 def insertBy {α} (key : α → Str) (x : α) : List α → List α
   | [] => [x]
-  | y :: ys => if strLt (key x) (key y) then x :: y :: ys else y :: insertBy key x ys
+  | y :: ys => if strLt (key y) (key x) then y :: insertBy key x ys else x :: y :: ys   -- stable: equal keys keep their order
 
 def sortBy {α} (key : α → Str) (l : List α) : List α := l.foldr (insertBy key) []
 
 /-! ## file names -/
 
-def pageIndividuals (letter : UInt8) : Str :=
-  if letter == 35 then bs "individuals-symbol.html" else bs "individuals-" ++ [letter] ++ bs ".html"
+/-- `PageIndividuals` — the naming model of C19 (`Gedcom.Model.PublishNames`) -/
+def pageIndividuals (letter : UInt8) : Str := Publish.pageIndividuals letter
 
 def lowerByte (b : UInt8) : UInt8 := if 65 ≤ b && b ≤ 90 then b + 32 else b
 def upperByte (b : UInt8) : UInt8 := if 97 ≤ b && b ≤ 122 then b - 32 else b
@@ -177,7 +178,7 @@ def indexLetters (fl : Flags) (d : DocA) (v : Vis) : List UInt8 :=
   let from_ : List PPerson := match v with
     | .hide => if fl.hideLettersFromDead then d.people.filter (fun (p : PPerson) => !p.pub.living) else []
     | _ => d.people
-  let ls := from_.map (fun p => p.pp.idxLetter)
+  let ls := from_.map (fun p => Publish.indexLetter p.priv.surname)
   (if ls.contains 35 then [35] else []) ++
     ((List.range 26).map (fun i => UInt8.ofNat (97 + i))).filter (fun c => ls.contains c)
 
@@ -208,17 +209,18 @@ def places (fl : Flags) (d : DocA) (v : Vis) : List PlaceA :=
   let evs := placeEvents fl d v
   let keys := sortBy id ((evs.map (fun e => e.2.key)).eraseDups)
   keys.map fun k =>
-    let mine := sortBy (fun (e : Option PPerson × PlEv) => e.2.sortKey) (evs.filter (fun e => e.2.key == k))
-    match mine with
-    | e :: _ => ⟨k, e.2.pretty, e.2.country, mine⟩
+    let here := evs.filter (fun e => e.2.key == k)
+    let mine := sortBy (fun (e : Option PPerson × PlEv) => e.2.sortKey) here
+    match here with
+    | e :: _ => ⟨k, e.2.pretty, e.2.country, mine⟩   -- the first place in document order names the page
     | [] => ⟨k, [], [], []⟩
 
 /-! ## the frame of every page -/
 
 def natStr (n : Nat) : Str := bs (toString n)
 
-/-- `PublishHeader`; `nPlaces` is the size of the place map the page was given (individual and list
-    pages are created before the places are collected: 0) -/
+/-- `PublishHeader`; `nPlaces` is the size of the place map the page was given (since /repo 5934dbb the
+    places are collected in `NewPublisher`, so every page sees the same map; nil when places are off) -/
 def headerAtoms (fl : Flags) (d : DocA) (v : Vis) (o : Opts) (nPlaces : Nat) (extra : Str) : List Atom :=
   let letters := indexLetters fl d v
   (match o.ind, letters with
@@ -252,7 +254,7 @@ def rowsWithHeadings (v : Vis) : Str → List PPerson → List Atom
       rowsWithHeadings v p.priv.surname ps
 
 /-- `IndividualListPage` of one letter -/
-def individualListPage (fl : Flags) (d : DocA) (v : Vis) (o : Opts) (letter : UInt8) : List Atom :=
+def individualListPage (fl : Flags) (d : DocA) (v : Vis) (o : Opts) (nPlaces : Nat) (letter : UInt8) : List Atom :=
   let mine := d.people.filter (fun p => p.pp.listLetter == letter)
   let listed := sortBy (fun (p : PPerson) => p.pp.sortKey) (mine.filter (fun p => !hiddenP p v))
   let nHidden := (mine.filter (fun p => hiddenP p v)).length
@@ -261,7 +263,7 @@ def individualListPage (fl : Flags) (d : DocA) (v : Vis) (o : Opts) (letter : UI
   let pills := (indexLetters fl d v).flatMap (fun l => [Atom.H (pageIndividuals l), .T [upperByte l]])
   let surnamePills := (sortBy id ((listed.map (fun p => p.priv.surname)).eraseDups)).flatMap
     (fun s => [Atom.H (35 :: s), .T s])
-  pageAtoms (bs "Individuals") (headerAtoms fl d v o 0 []) <|
+  pageAtoms (bs "Individuals") (headerAtoms fl d v o nPlaces []) <|
     hiddenLine ++ pills ++ surnamePills ++ [lit "Name", lit "Birth", lit "Death"] ++ rowsWithHeadings v [] listed
 
 /-- `SurnameListPage` -/
@@ -269,7 +271,7 @@ def surnameListPage (fl : Flags) (d : DocA) (v : Vis) (o : Opts) (nPlaces : Nat)
   pageAtoms (bs "Surnames") (headerAtoms fl d v o nPlaces []) <|
     [lit "Surname", lit "Number of Individuals"] ++
     (surnames fl d v).flatMap (fun s =>
-      [Atom.H (pageIndividuals (lowerByte (s.headD 35)) ++ (35 :: s)), .T s, .T (natStr (surnameCount fl d v s))])
+      [Atom.H (Publish.surnameLinkPage s ++ (35 :: s)), .T s, .T (natStr (surnameCount fl d v s))])
 
 /-- `PlaceListPage` -/
 def placeRows (last : Option Str) : List PlaceA → List Atom
@@ -349,24 +351,49 @@ def parentsAtoms (d : DocA) (v : Vis) (p : PPerson) : List Atom :=
   fams.flatMap (fun f => fragAtoms (individualButton (per (get d f.1)) v) ++ fragAtoms (individualButton (per (get d f.2)) v))
 
 /-- `IndividualPage` -/
-def individualPage (fl : Flags) (d : DocA) (v : Vis) (o : Opts) (p : PPerson) : List Atom :=
-  pageAtoms p.pp.title (headerAtoms fl d v o 0 p.pp.title) <|
+def individualPage (fl : Flags) (d : DocA) (v : Vis) (o : Opts) (nPlaces : Nat) (p : PPerson) : List Atom :=
+  pageAtoms p.pp.title (headerAtoms fl d v o nPlaces p.pp.title) <|
     parentsAtoms d v p ++ fragAtoms (individualName (some p.person) v) ++ fragAtoms (individualDates (some p.person) v) ++
     [lit "Name & Sex"] ++ decodeAtoms p.pp.nameCard ++ [lit "Additional Names"] ++ decodeAtoms p.pp.altCard ++
     eventsAtoms d v p ++ partnersAtoms d v p
 
+/-! ## page names (`GetIndividuals` / `getUniqueKey`, from the naming model of C19) -/
+
+/-- hands the keys, in order, to the people that get one -/
+def assignKeys (skip : PPerson → Bool) : List Str → List PPerson → List PPerson
+  | _, [] => []
+  | ks, p :: ps =>
+    if skip p then p :: assignKeys skip ks ps
+    else match ks with
+      | k :: ks' => { p with priv := { p.priv with page := k ++ Publish.html } } :: assignKeys skip ks' ps
+      | [] => p :: assignKeys skip [] ps
+
+/-- the people that are given a page name: everybody, or (regenerated fact) only those who get a page -/
+def keyed (fl : Flags) (v : Vis) (p : PPerson) : Bool := !(fl.keysSkipHidden && hiddenP p v)
+
+/-- the document with the page name of every person computed: `getUniqueKey` over the written names
+    in document order, avoiding the place keys the publisher holds -/
+def rekey (fl : Flags) (d : DocA) (v : Vis) (o : Opts) : DocA :=
+  let placeKeys := if o.pla then (places fl d v).map (·.key) else []
+  let keys := Publish.individualKeys ((d.people.filter (keyed fl v)).map (fun p => p.pp.title)) placeKeys
+  { d with people := assignKeys (fun p => !keyed fl v p) keys d.people }
+
 /-! ## the site: every modelled file with its skeleton, in the order of `sendFiles` -/
 
-def site (fl : Flags) (d : DocA) (v : Vis) (o : Opts) : List (Str × List Atom) :=
+def siteOf (fl : Flags) (d : DocA) (v : Vis) (o : Opts) : List (Str × List Atom) :=
   let pls := if o.pla then places fl d v else []
   (if o.ind then
-    (indexLetters fl d v).map (fun l => (pageIndividuals l, individualListPage fl d v o l)) ++
-    (d.people.filter (fun p => !hiddenP p v)).map (fun p => (p.priv.page, individualPage fl d v o p))
+    (indexLetters fl d v).map (fun l => (pageIndividuals l, individualListPage fl d v o pls.length l)) ++
+    (d.people.filter (fun p => !hiddenP p v)).map (fun p => (p.priv.page, individualPage fl d v o pls.length p))
    else []) ++
   (if o.pla then
     (bs "places.html", placeListPage fl d v o) :: pls.map (fun p => (p.key ++ bs ".html", placePage fl d v o p))
    else []) ++
   (if o.fam then [(bs "families.html", familyListPage fl d v o pls.length)] else []) ++
   (if o.sur then [(bs "surnames.html", surnameListPage fl d v o pls.length)] else [])
+
+/-- the published site: page names assigned, then every page assembled -/
+def site (fl : Flags) (d : DocA) (v : Vis) (o : Opts) : List (Str × List Atom) :=
+  siteOf fl (rekey fl d v o) v o
 
 end Gedcom.Pages
